@@ -1,8 +1,9 @@
 SPECIFICATION Spec
-CONSTANTS MaxBr = 3 MaxN = 6 MaxRuns = 2
-  Kinds <- KindsQuick
-  BufSizes <- BufThorough
+CONSTANTS MaxRuns = 2
+  Scenarios <- ScThorough
 INVARIANT OpEqDen
+INVARIANT InterBoth
+INVARIANT InterStateless
 INVARIANT AllActiveAtStart
 INVARIANT OutIsPrefix
 INVARIANT BufBound
